@@ -4,7 +4,7 @@ From Verif Require Import Sx Str Tok.
 From Verif.Model Require Import CharRef TokBase Ser.
 From Verif.Spec Require Import TokSpec.
 From Verif.Gen Require Import Consts.
-From Verif.Proofs Require Import C08 SpecTac C08comment C08doctype C08tag.
+From Verif.Proofs Require Import C08 SpecTac C08comment C08doctype C08tag C08raw.
 Import ListNotations.
 Local Open Scope N_scope.
 
@@ -111,6 +111,49 @@ Theorem c08_stream_roundtrip_or_error : forall o, qc_ok o -> forall ts txt rest 
                 = Some (mk_tk dataState rest cu' tm (rev (flat_map (rd_tok o) ts) ++ out) cd false).
 Proof. exact stream_roundtrip_no_errors. Qed.
 
+(* RAW-TEXT elements (style, xmp, iframe, noembed, noframes), read in place in the RAWTEXT state with the element's
+   start tag as the last start tag: text without "</" and without U+0000, written as it is, then the end tag, is read
+   back as exactly that text and that end tag, and the tokenizer is in the data state in front of the rest *)
+Theorem c08_rawtext_element_reads_back : forall name text rest a sc t o cd,
+  name <> [] -> forallb is_alpha name = true -> raw_ok text = true ->
+  exists j, sp_iter j (mk_tk rawtextState (text ++ [60; 47] ++ name ++ [62] ++ rest) (CTag false (lower_str name) a sc) t o cd false)
+            = Some (mk_tk dataState rest (CTag true (lower_str name) [] false) name
+                          (OEnd (lower_str name) [] false :: singles_r text ++ o) cd false).
+Proof. exact rawtext_element_roundtrip. Qed.
+(* ... "or an error is reported": when Ser reports nothing for the text token, that hypothesis holds *)
+Theorem c08_rawtext_no_error_reads_back : forall o name text rest a sc t out cd,
+  name <> [] -> forallb is_alpha name = true -> forallb (fun c => negb (c =? 0)) text = true ->
+  ser_token o true (TChars text) = Some (true, text, []) ->
+  exists j, sp_iter j (mk_tk rawtextState (text ++ [60; 47] ++ name ++ [62] ++ rest) (CTag false (lower_str name) a sc) t out cd false)
+            = Some (mk_tk dataState rest (CTag true (lower_str name) [] false) name
+                          (OEnd (lower_str name) [] false :: singles_r text ++ out) cd false).
+Proof. exact rawtext_no_error_reads_back. Qed.
+(* SCRIPT: the same in the script data state, as long as the text holds no "<!" either (script_ok) *)
+Theorem c08_script_element_reads_back_partial : forall name text rest a sc t o cd,
+  name <> [] -> forallb is_alpha name = true -> script_ok text = true ->
+  exists j, sp_iter j (mk_tk scriptDataState (text ++ [60; 47] ++ name ++ [62] ++ rest) (CTag false (lower_str name) a sc) t o cd false)
+            = Some (mk_tk dataState rest (CTag true (lower_str name) [] false) name
+                          (OEnd (lower_str name) [] false :: singles_r text ++ o) cd false).
+Proof. exact script_element_roundtrip. Qed.
+(* ... and without that hypothesis the statement is FALSE: after the script text "<!--<script>" neither the end tag nor
+   the "<p>" behind it is read back as a tag (known finding C08-script-comment-like-text: the serializer writes such a
+   text without reporting an error) *)
+Theorem c08_script_text_refuted :
+  let k := mk_tk scriptDataState ([60;33;45;45;60;115;99;114;105;112;116;62] ++ [60;47;115;99;114;105;112;116;62] ++ [60;112;62;120])
+                 (CTag false [115;99;114;105;112;116] [] false) [] [] false false in
+  match sp_run 200 k with
+  | Some k' => existsb (fun t => match t with OEnd _ _ _ => true | OStart _ _ _ => true | _ => false end) (out k')
+  | None => true
+  end = false.
+Proof. exact script_swallows_its_end_tag. Qed.
+(* RCDATA elements (title, textarea): ANY text without U+0000, written escaped, is read back exactly, then the end tag *)
+Theorem c08_rcdata_element_reads_back : forall name text rest a sc t o cd,
+  name <> [] -> forallb is_alpha name = true -> forallb (fun c => negb (c =? 0)) text = true ->
+  exists j, sp_iter j (mk_tk rcdataState (escape text ++ [60; 47] ++ name ++ [62] ++ rest) (CTag false (lower_str name) a sc) t o cd false)
+            = Some (mk_tk dataState rest (CTag true (lower_str name) [] false) name
+                          (OEnd (lower_str name) [] false :: singles_r text ++ o) cd false).
+Proof. exact rcdata_element_roundtrip. Qed.
+
 (* non-vacuity of the stream theorem: <a href=x&amp;y hidden="">1 &lt; 2</a> with the default options *)
 Example c08_stream_example :
   let o := mk_sopts 2 34 true true false true false false true in
@@ -128,7 +171,8 @@ Example c08_example :
 Proof. split; vm_compute; reflexivity. Qed.
 
 (* PARTIAL.  Proved: text, quoted and unquoted values, tag and attribute names, start and end tags, comments,
-   doctypes, and the lift to whole streams of these without raw-text elements.  Not proved: raw-text elements
-   (script, style, ...: written unescaped by design), entity tokens, identifiers containing ">"; these are decided on every run by
+   doctypes, and the lift to whole streams of these without raw-text elements.  and, element by element, the content and end tag of raw-text, script (without "<!") and RCDATA elements read in
+   the state the parser switches to.  Not proved: the lift of those three to whole streams (the parser's state
+   switch is not part of S_tok), script text containing "<!" (refuted in general, see above), entity tokens, identifiers containing ">"; these are decided on every run by
    re-tokenizing the real serializer's output with S_tok (extracted) for generated trees x options -- a test,
    with seven listed findings.  Ser itself is a hand model tied to the code by the correspondence run. *)
